@@ -327,10 +327,29 @@ def check(ctx):
                 guard = p
                 break
             p = uq.module.parent.get(p)
-        ok = ok and guard is not None and any(
+        form_a = guard is not None and any(
             isinstance(c, ast.Call) and isinstance(c.func, ast.Attribute) and c.func.attr == "add"
             and norm(c.func.value) == norm(guard.test.comparators[0]) and c.args and norm(c.args[0]) == norm(guard.test.left)
             for c in ast.walk(guard))
+        # guard-clause form: `if key in seen: continue` / add / yield as siblings, in that order
+        form_b = False
+        blk_owner = uq.module.parent.get(uq.module.parent.get(y))      # Expr(yield) -> its block owner
+        for field in ("body", "orelse"):
+            blk = getattr(blk_owner, field, None)
+            if not isinstance(blk, list):
+                continue
+            ystmt = uq.module.parent.get(y)
+            if ystmt not in blk:
+                continue
+            before = blk[:blk.index(ystmt)]
+            skips = [s_ for s_ in before if isinstance(s_, ast.If) and isinstance(s_.test, ast.Compare) and len(s_.test.ops) == 1
+                     and isinstance(s_.test.ops[0], ast.In) and any(isinstance(z, ast.Continue) for z in s_.body) and not s_.orelse]
+            for sk in skips:
+                form_b = form_b or any(
+                    isinstance(s_, ast.Expr) and isinstance(s_.value, ast.Call) and isinstance(s_.value.func, ast.Attribute)
+                    and s_.value.func.attr == "add" and norm(s_.value.func.value) == norm(sk.test.comparators[0])
+                    and s_.value.args and norm(s_.value.args[0]) == norm(sk.test.left) for s_ in before[before.index(sk) + 1:])
+        ok = ok and (form_a or form_b)
     adds = [c for f, c in calls_in(uq) if isinstance(c.func, ast.Attribute) and c.func.attr == "add"]
     ok = ok and bool(adds)
     ctx.ob("ORD-unique", uq, "yield item only if its key is new; record the key", ys[0] if ys else uq.node, ok,
